@@ -99,7 +99,25 @@ fn honest_scenario(rng: &mut StdRng, sc: usize, out: Box<dyn std::io::Write>, kv
         mmr_activated_epoch: act,
         ..Default::default()
     };
-    let leaves = built.leaves.clone();
+    let mut leaves = built.leaves.clone();
+    // "Forks shallower than last-N" restricts what is ABANDONED, not what is adopted: now and then a short side branch
+    // forks far below the main tip.  A client that follows it first (a peer on it is proven first) later moves to the
+    // main chain with a reorg section AND more than last-N unknown blocks (sampling).  The side branch is lighter than
+    // the main chain one block above the reach of last-N, so nobody ever leaves the main chain for it from higher up.
+    if last_n >= 2 && main_len as u64 > last_n + 4 && rng.gen_bool(0.35) {
+        let main = built.leaves[0];
+        let main_num = built.chain.blocks[main].num;
+        let below = rng.gen_range((last_n + 2)..=(last_n + 12).min(main_num - 1));
+        let g2 = main_num - below;
+        let fork_at = built.chain.ancestor_at(main, g2).unwrap();
+        let len = rng.gen_range(1..=last_n as usize);
+        let p = ChainParams { pow: pow.to_owned(), epoch_len: (2, if main_len > 200 { 40 } else { 6 }), vary_difficulty: true };
+        let s_leaf = gen::extend(&mut built.chain, fork_at, len, &p, rng);
+        let guard = built.chain.ancestor_at(main, g2 + last_n + 1).unwrap();
+        if built.chain.blocks[s_leaf].td < built.chain.blocks[guard].td {
+            leaves.push(s_leaf);
+        }
+    }
     let mut sim: Sim = new_sim(built.chain, cfg, npeers, out, &format!("honest-{}", sc), vec!["peersync"]);
     // each peer follows one branch and starts somewhere below its leaf
     let tips: Vec<(usize, usize)> = (0..npeers)
